@@ -254,7 +254,7 @@ func cmdCheck(args []string) int {
 	genS := time.Since(start).Seconds() - loadS
 
 	// ---- discharge
-	opts := solveOpts{timeoutS: 10, retryS: 30, workers: 12}
+	opts := solveOpts{timeoutS: 10, retryS: 60, workers: 12}
 	if *tier == "thorough" {
 		opts = solveOpts{timeoutS: 30, retryS: 120, both: true, workers: 8}
 	}
@@ -288,6 +288,7 @@ func cmdCheck(args []string) int {
 	}
 	var failing, passing, vacuityBad, unprovedSeen, knownSeen []*Obligation
 	nVac, nVacOK := 0, 0
+	var unreachableReturns []string
 	for _, o := range obls {
 		if o.Vacuity {
 			nVac++
@@ -295,7 +296,13 @@ func cmdCheck(args []string) int {
 			case "sat":
 				nVacOK++
 			case "unsat":
-				vacuityBad = append(vacuityBad, o)
+				if strings.Contains(o.Name, "#vacuity:return#") {
+					// an unreachable return statement (e.g. an error path the library models rule out) is reported, not fatal:
+					// only a function with NO reachable return (vacuity:exit) or a contradictory precondition voids its proofs
+					unreachableReturns = append(unreachableReturns, o.Name+" ("+o.Pos+")")
+				} else {
+					vacuityBad = append(vacuityBad, o)
+				}
 			}
 			continue
 		}
@@ -598,6 +605,7 @@ func cmdCheck(args []string) int {
 				"per_obligation":           per,
 				"vacuity":                  map[string]int{"checks": nVac, "confirmed_sat": nVacOK, "contradictory": len(vacuityBad)},
 				"known_findings_reported":  knownList,
+				"unreachable_return_statements": unreachableReturns,
 				"generated_but_unproved_not_counted": unprovedList,
 				"unproved_clauses":         cfg.Unproved,
 				"bounded":                  boundedEv,
@@ -613,6 +621,9 @@ func cmdCheck(args []string) int {
 		os.MkdirAll(filepath.Join(vd, "evidence"), 0o755)
 		b, _ := json.MarshalIndent(ev, "", " ")
 		os.WriteFile(filepath.Join(vd, "evidence", id+".json"), b, 0o644)
+	}
+	for _, u := range unreachableReturns {
+		fmt.Println("note: unreachable return statement (paths through it are vacuous):", u)
 	}
 	fmt.Printf("%s: %d functions, %d obligations (%d discharged, %d failing, %d known, %d unproved-not-counted), vacuity %d/%d, load %.1fs vcgen %.1fs solver %.1fs wall %.1fs -> exit %d\n",
 		id, len(results), len(passing)+len(failing), len(passing), len(failing), len(knownSeen), len(unprovedSeen), nVacOK, nVac, loadS, genS, float64(solverMs)/1000, wall, exit)
